@@ -2,7 +2,7 @@
 import vlib
 
 SUB = "c05"
-MODULES = ["Mtv.Props.C05"]
+MODULES = ["Mtv.Props.C05", "Mtv.Props.Arith"]
 THEOREMS = [
     "Mtv.Ige.ige_regs_eq_spec",
     "Mtv.Ige.ige_bytes_eq_spec",
@@ -94,7 +94,7 @@ def run(ctx):
         "model boundaries: 32-byte IV, len(out) = len(in), in and out do not overlap (true of every caller in /repo); "
         "the padding bytes of EncryptMessageWithTempKeys are an input of the model (the stream dry.RandomBytes delivers).",
     ]
-    return vlib.generic_check(ctx, SUB, MODULES, THEOREMS, RULE)
+    return vlib.generic_check(ctx, SUB, MODULES, THEOREMS + vlib.ARITH_THEOREMS["C05"], RULE, gen_hook=vlib.regen_arith)
 
 
 def replay(ctx, path):
